@@ -164,6 +164,12 @@ impl Space {
         // Initialize nearest-neighbour matrix
         let mut nn: Vec<Vec<usize>> = (0..self.count()).map(|_| vec![0; k]).collect();
 
+        // The positions and widths of the grid cells are rounded, and a particle within
+        // rounding distance of a cell face may be binned on either side of it: lower
+        // bounds on distances derived from the cell geometry are only accurate to a few
+        // ulps of the coordinates. Keep the pruning conservative by that margin.
+        let slack = 8. * f64::EPSILON * (self.anchor.abs() + self.width).max_element();
+
         // loop over parts and find their nearest neighbours
         for part in self.parts.iter() {
             let mut h = BinaryHeap::<HeapEntry>::new();
@@ -185,11 +191,12 @@ impl Space {
                     let ngb_cell = &self.cells[ngb_cid];
 
                     // Can we safely skip this cell?
-                    if h.len() == k
-                        && h.peek().expect("Heap cannot be empty!").d_2
-                            < ngb_cell.min_distance_squared(part.x())
-                    {
-                        continue;
+                    if h.len() == k {
+                        let min_dist =
+                            (ngb_cell.min_distance_squared(part.x()).sqrt() - slack).max(0.);
+                        if h.peek().expect("Heap cannot be empty!").d_2 < min_dist * min_dist {
+                            continue;
+                        }
                     }
 
                     // Check the parts of this cell
@@ -221,7 +228,8 @@ impl Space {
                     }
                 }
 
-                let min_dist_to_ring = dist_to_face + r as f64 * self.cells[0].width.min_element();
+                let min_dist_to_ring =
+                    (dist_to_face + r as f64 * self.cells[0].width.min_element() - slack).max(0.);
                 if h.len() == k
                     && min_dist_to_ring * min_dist_to_ring
                         > h.peek().expect("Heap cannot be emtpy!").d_2
